@@ -137,6 +137,15 @@ func (f *fetchModel) storeBatch(mp *mpart, b *cf.Batch) {
 		wb.firstTs = wb.recs[0].tsMs
 	}
 	wb.maxTs = maxTs
+	if b.AppendTsMs > 0 && mp.magic >= 1 && b.Control == "" {
+		// LogAppendTime topic: the broker set the timestamp-type bit and stamped the batch (v2: MaxTimestamp; v1: the
+		// message or wrapper timestamp); every record of the batch carries that time for a consumer
+		wb.logAppend = true
+		wb.maxTs = b.AppendTsMs
+		for _, r := range mb.recs {
+			r.tsMs = b.AppendTsMs
+		}
+	}
 	last := int64(0)
 	if n := len(wb.recs); n > 0 {
 		last = wb.recs[n-1].delta
